@@ -69,7 +69,8 @@ def ovf_xml(spec: dict, prolog: str = "") -> str:
     out.append(f"  <{el('DiskSection')}>")
     out.append(f"    <{el('Info')}>disks</{el('Info')}>")
     for did, fref in spec["disks"]:
-        own = f"{at('capacity', '1024')} {at('diskId', did)} {at('fileRef', fref)}"
+        # a Disk without fileRef is an empty disk (created at deployment): it has no backing file
+        own = f"{at('capacity', '1024')} {at('diskId', did)}" + (f" {at('fileRef', fref)}" if fref is not None else "")
         out.append(f"    <{el('Disk')} {foreign(own, 'vmw:diskId=' + quoteattr('vendor-' + str(len(out))) + ' vmw:fileRef=' + quoteattr('vendor-file'))}/>")
     out.append(f"  </{el('DiskSection')}>")
     vs_ns = f' xmlns:{rp}2="{RASD_NS}"' if spec.get("redundant_ns") else ""
@@ -94,16 +95,20 @@ def ovf_xml(spec: dict, prolog: str = "") -> str:
 
 def ovf_disks(spec: dict) -> list[str]:
     files = dict(map(tuple, spec["files"]))
-    disks = {d: files[f] for d, f in spec["disks"]}
+    disks = {d: (files[f] if f is not None else None) for d, f in spec["disks"]}
     res = []
     for it in spec["items"]:
         if it["rt"] != 17:
             continue
         host = it["host"]
+        if host is None:
+            continue  # a drive without medium
         if host.startswith("ovf:"):
             host = host[4:]
         kind, ident = host.strip("/").split("/", 1)
-        res.append(disks[ident] if kind == "disk" else files[ident])
+        ref = disks[ident] if kind == "disk" else files[ident]
+        if ref is not None:  # (an empty disk has no backing file)
+            res.append(ref)
     return res
 
 
